@@ -114,8 +114,9 @@ structure DInv (cfg : Config) (d : Dev) : Prop where
   ch : d.channel < 16
   map : d.mapping < cfg.maps.length
   vel : d.velocity = u8 cfg.vel
-  oct : -128 ≤ d.octave ∧ d.octave ≤ 127
-  semi : -128 ≤ d.semitone ∧ d.semitone ≤ 127
+  /-- (octave and semitone are Go `int`s since the int8 repair: no bound is needed) -/
+  oct : True
+  semi : True
   wf : ∀ p ∈ d.noteTr, p.2.1 ≤ 127 ∧ p.2.2 < 16
 
 /-- the note tracker, the counters and what a receiver hears -/
